@@ -31,9 +31,17 @@ const (
 	fDup
 	fDelay // deliver after the following message (reordering)
 	fBreak // the connection breaks at this send
+	fDupLate // delivered, and delivered again after the following message (a retransmission overtaken by newer data)
+	fDelay2  // deliver after the following two messages
+	nFaultKinds
 )
 
-var faultNames = []string{"none", "drop", "dup", "delay", "break"}
+var faultNames = []string{"none", "drop", "dup", "delay", "break", "dup-late", "delay2"}
+
+type heldMsg struct {
+	m   *rp.WALStreamResponse
+	due int // delivered after this many further delivered messages
+}
 
 type repLink struct {
 	p       *replication.Primary
@@ -57,7 +65,7 @@ type memStream struct {
 	cancel context.CancelFunc
 	done   chan struct{} // closed when the server handler returned
 	err    error
-	held   *rp.WALStreamResponse
+	held   []heldMsg
 	broken bool
 }
 
@@ -85,29 +93,49 @@ func (s *memStream) Send(m *rp.WALStreamResponse) error {
 	c := proto.Clone(m).(*rp.WALStreamResponse) // gRPC marshals: the receiver never shares memory with the sender
 	l.logf("send#%d %s seqs=%v", idx, faultNames[f], seqsOf(m))
 	put := func(x *rp.WALStreamResponse) { vsched.Send(s.ch, x) }
+	hold := func(x *rp.WALStreamResponse, due int) { s.held = append(s.held, heldMsg{x, due}) }
+	// messages held back become due as later messages are delivered; they go out behind the message that released them
+	release := func() {
+		var keep []heldMsg
+		var out []*rp.WALStreamResponse
+		for _, h := range s.held {
+			h.due--
+			if h.due <= 0 {
+				out = append(out, h.m)
+			} else {
+				keep = append(keep, h)
+			}
+		}
+		s.held = keep
+		for _, x := range out {
+			put(x)
+		}
+	}
 	switch f {
 	case fDrop:
 		return nil
 	case fDup:
 		put(c)
 		put(proto.Clone(m).(*rp.WALStreamResponse))
+		release()
 	case fDelay:
-		if s.held != nil {
-			put(s.held)
-		}
-		s.held = c
-		return nil
+		// an earlier delayed message is overtaken by nothing more: it goes out first
+		release()
+		hold(c, 1)
+	case fDelay2:
+		release()
+		hold(c, 2)
+	case fDupLate:
+		put(c)
+		release()
+		hold(proto.Clone(m).(*rp.WALStreamResponse), 1)
 	case fBreak:
 		s.broken = true
 		s.cancel()
 		return status.Error(codes.Unavailable, "connection reset")
 	default:
 		put(c)
-	}
-	if s.held != nil && f != fDelay {
-		h := s.held
-		s.held = nil
-		put(h)
+		release()
 	}
 	return nil
 }
@@ -129,6 +157,7 @@ func (s *memStream) Recv() (*rp.WALStreamResponse, error) {
 	c2 := vsched.CaseRecv(ctxDone)
 	switch vsched.Select(false, c0, c1, c2) {
 	case 0:
+		s.link.logf("recv seqs=%v", seqsOf(c0.Val()))
 		return c0.Val(), nil
 	case 1:
 		// drain what is still queued before reporting the end of the stream
